@@ -146,6 +146,19 @@ func runC03(c *core.Case) {
 		c.NonTrivial()
 	}
 
+	if c.I >= c03Directed(c.Tier) && r.P(0.08) {
+		// poison: a call that fails on a malformed ID after a valid prefix that has already expanded to > 1000 voxels;
+		// whatever it leaves behind (pooled buffers, caches) must not show in the judged call that follows
+		pz := genID(r, 0, 30, 0, 30)
+		prefix := []string{pz.Ext(), ref.Shift(pz, 1, 0, 0).Ext(), ref.Shift(pz, 0, 1, 1).Ext()}
+		_, perr := integrate.ChangeExtendedSpatialIdsZoom(malformedAfter(r, prefix), pz.H+3, pz.V+3)
+		c.Call()
+		if perr == nil {
+			c.Fail("change-missing-error", nil, "a list ending in a malformed ID was accepted")
+			return
+		}
+		c.Tag("after-failed-call")
+	}
 	got, err = integrate.ChangeExtendedSpatialIdsZoom(in, H, V)
 	c.Call()
 	if err != nil {
